@@ -48,6 +48,7 @@ PROPS = {
     "C18": dict(engine="e3", level="exploration", rule="e3-encrypt"),
     "C19": dict(engine="e3", level="exploration", rule="e3-service"),
     "C20": dict(engine="e3", level="fault_enumeration", rule="e3-crash", evaluations_counter="crash.states", distinct="states"),
+    "C32": dict(engine="e2", level="exploration", rule="e2-pool", external=True, replay_attempts=10),
 }
 
 ENGINES = {
@@ -67,6 +68,17 @@ ENGINES["e3"] = dict(race=False,
 ENGINES["e6"] = dict(race=False, real=["daemon/pex (Pex, peerlist, validateAddress, Run goroutine with the clearOld ticker, save/load of peers.json via util/file)"],
                      stub=["wall clock (synctest fake clock: minutes to weeks are jumped)", "pex random source (hook H3 seeds it)", "peer list download (disabled)"])
 
+ENGINES["e2"] = dict(race=True,
+                     real=["daemon/gnet.ConnectionPool: Run with its accept loop, processStrand, handleConnection with readLoop / sendLoop / receive loop, "
+                           "Connect, Disconnect, SendMessage, BroadcastMessage, GetConnection(s), Size, SendPings, GetStaleConnections, Shutdown; "
+                           "daemon/strand.Strand; gnet framing (decodeData, convertToMessage, sendMessage); all of them as real goroutines under the Go race detector"],
+                     stub=["TCP: net.Listen / net.DialTimeout are replaced through hook H8 by a simulated listener and simulated connections "
+                           "(blocking reads/writes, deadlines on the fake clock, bounded send buffers, close/reset)",
+                           "goroutine scheduling: every goroutine parks at yield points (strand.VerifYield, every simulated network operation, every callback and "
+                           "message handler, every spin of sendLoop on a closed queue) and the tape picks which one proceeds; GOMAXPROCS=1, asyncpreemptoff=1",
+                           "wall clock (synctest fake clock)", "message set: one registered test message type; the daemon is not involved",
+                           "residual nondeterminism: the Go runtime's choice among several ready select cases is not controlled (see DESIGN.md 4.2)"])
+
 RULES = {
     "e5-access": "one run = one API configuration (random subset of the 7 API sets, CSRF on/off, header check on/off, credentials set or not, host whitelist or not) on a real node "
                  "(visor + bolt + daemon + wallet service + kv storage behind the real mux, middleware and handlers via hook H6, requests through httptest) and a session of "
@@ -83,6 +95,15 @@ RULES = {
               "RemovePeer, retry bookkeeping, SetHasIncomingPort/Random/Trusted, one-by-one filling, clock advances of a minute to 30 days (stale sweep every 10 simulated "
               "minutes), shutdown + reload (sometimes on a truncated peers file); after every operation every listed address is validated independently, the bound is "
               "checked after bulk adds and every configured trusted peer must be present and trusted; non-trivial = at least 5 checks",
+    "e2-pool": "one run = one real gnet.ConnectionPool (limits 1-3 outgoing / 1-3 incoming, write queue 1-16, send-result queue 1-64, read/write timeouts 0-3 s) started with "
+               "Run on a simulated listener; 2-4 caller goroutines issue 2-7 operations each (SendMessage, BroadcastMessage, Disconnect, GetConnections, GetConnection, Size, "
+               "SendPings, GetStaleConnections, Connect, draining SendResults), 0-4 incoming and any number of outgoing simulated connections whose scripted peers write "
+               "message bursts, split frames, messages the handler refuses, unknown message ids, read, stall, close or reset; one goroutine calls Shutdown after 0-30 of its own "
+               "scheduling turns (in 1/8 of the runs actors may start before the pool listens); 150-400 (thorough 450-700) tape-chosen scheduling decisions (which parked "
+               "goroutine proceeds, or a clock advance of 1 ms - 3.1 s), then a fair drain; checked: race detector silent, every call returned success / the pool-closed error / "
+               "a documented error of that call, calls started after Shutdown returned get the pool-closed error, Shutdown and Run return, the five registries are empty, every "
+               "connection given to the pool is closed, no pool goroutine is left, connect/disconnect callbacks pair up, peers only ever receive well-formed frames, per-connection "
+               "delivery order; distinct = distinct sequence of (yield label, harness/pool) decisions; non-trivial = at least 2 successful calls and one established connection",
     "e1-net": "one run = a network of 2-3 real nodes (publisher + followers; real visor, bolt, daemon handlers and gnet pool, stepped through hooks H4/H5) on simulated "
               "links; 20-90 events: clients hand transactions (incl. fat ones and a packer that fills the pool to the block size limit) to any node, the publisher's block "
               "timer, request/announce/refresh timers, clock advance, and delivery of one in-flight frame with faults (drop, duplicate, chunked, and for C10 third-party "
@@ -192,8 +213,32 @@ def run_worker(binary, job, jobfile, timeout):
         json.dump(job, f)
     e = env()
     e["VERIF_JOB"] = jobfile
-    return subprocess.Popen([binary, "-test.run", "^TestWorker$", "-test.timeout", "0"], env=e,
-                            stdout=subprocess.PIPE, stderr=subprocess.STDOUT, text=True)
+    if os.path.basename(binary).startswith("e2-"):
+        # race-detector reports go to a per-process file the engine reads back after every run; no preemption inside the tiny
+        # unsynchronised sections of the scheduler
+        racelog = os.path.join(job["scratch"], "race")
+        e["GORACE"] = "log_path=%s halt_on_error=0 exitcode=0" % racelog
+        e["VERIF_RACE_LOG"] = racelog
+        e["GODEBUG"] = "asyncpreemptoff=1"
+        e["GOMAXPROCS"] = "1"
+    # the worker's own output (mostly the log lines of the code under test) goes to a file: a pipe that the driver
+    # reads one worker at a time would stall the other workers as soon as it fills
+    logf = open(jobfile + ".log", "w")
+    p = subprocess.Popen([binary, "-test.run", "^TestWorker$", "-test.timeout", "0"], env=e, stdout=logf, stderr=subprocess.STDOUT, text=True)
+    p.logpath = jobfile + ".log"
+    logf.close()
+    return p
+
+
+def worker_output(p, n=4000):
+    try:
+        with open(p.logpath, "rb") as f:
+            f.seek(0, 2)
+            size = f.tell()
+            f.seek(max(0, size - n))
+            return f.read().decode("utf-8", "replace")
+    except OSError:
+        return ""
 
 
 def load_known():
@@ -223,6 +268,25 @@ def replay_once(binary, prop, tier, found, scratch, tag):
     if not os.path.exists(out):
         return None
     return json.load(open(out))
+
+
+def shrink_external(binary, prop, tier, found, scratch, tag, wall_s):
+    out = os.path.join(scratch, "%s.json" % tag)
+    job = dict(property=prop, profile="default", tier=tier, seed=0, first=0, stride=1, max_runs=1, budget_s=0, out=out, scratch=scratch,
+               replay_tape=found["tape"] or [0], replay_seed=found["run_seed"], replay_class=found["violation"]["class"],
+               replay_sig=found["violation"]["signature"], shrink_external=True, shrink_budget=250 if tier == "quick" else 1500, shrink_wall_s=wall_s)
+    p = run_worker(binary, job, os.path.join(scratch, "%s-job.json" % tag), wall_s)
+    try:
+        p.communicate(timeout=wall_s + 300)
+    except subprocess.TimeoutExpired:
+        p.kill()
+        return None
+    if not os.path.exists(out):
+        return None
+    s = json.load(open(out))
+    if s.get("harness_error") or not s.get("found"):
+        return None
+    return s["found"][0]
 
 
 def main():
@@ -312,18 +376,26 @@ def do_determinism(binary, prop, tier, seed, n, scratch):
 
 
 def explore(binary, prop, tier, seed, budget, workers, max_runs, scratch, spec, engine, build_s, t_start):
-    procs = []
-    shrink = 400 if tier == "thorough" else 150
+    external = bool(spec.get("external"))
+    shrink = 0 if external else (400 if tier == "thorough" else 150)
     known_sigs = [k["class"] + "|" + k["signature"] for k in load_known() if k["property"] == prop]
-    for w in range(workers):
-        out = os.path.join(scratch, "w%d.json" % w)
-        job = dict(property=prop, profile="default", tier=tier, seed=seed, first=w, stride=workers, max_runs=max_runs, budget_s=budget, out=out,
+    t_explore = time.time()
+
+    def start(w, first, gen):
+        out = os.path.join(scratch, "w%d-%d.json" % (w, gen))
+        left = budget - (time.time() - t_explore)
+        job = dict(property=prop, profile="default", tier=tier, seed=seed, first=first, stride=workers, max_runs=max_runs, budget_s=max(left, 0.001), out=out,
                    scratch=scratch, shrink_budget=shrink, known=known_sigs)
-        procs.append((run_worker(binary, job, os.path.join(scratch, "job%d.json" % w), budget), out, w))
+        return [run_worker(binary, job, os.path.join(scratch, "job%d-%d.json" % (w, gen)), left), out, w, gen]
+
+    procs = [start(w, w, 0) for w in range(workers)]
     sums = []
-    for p, out, w in procs:
+    restarts = 0
+    while procs:
+        p, out, w, gen = procs.pop(0)
         try:
-            stdout, _ = p.communicate(timeout=budget * 6 + 900)
+            p.communicate(timeout=budget * 6 + 900)
+            stdout = worker_output(p)
         except subprocess.TimeoutExpired:
             p.kill()
             die("worker %d exceeded the wall-clock watchdog" % w)
@@ -337,7 +409,17 @@ def explore(binary, prop, tier, seed, budget, workers, max_runs, scratch, spec, 
             print(stdout[-4000:])
             die("worker %d exited with status %s" % (w, p.returncode))
         sums.append(s)
+        # a worker that left early because a run could not be cleaned up (violation or recorded finding with goroutines
+        # left behind) is replaced by a fresh process that continues with the next run index
+        nxt = s.get("next_index", 0)
+        new_here = [f for f in s["found"] if (f["violation"]["class"] + "|" + f["violation"]["signature"]) not in known_sigs]
+        if s.get("tainted") and nxt and not new_here and time.time() - t_explore < budget and (not max_runs or nxt < max_runs) and restarts < 2000:
+            restarts += 1
+            procs.append(start(w, nxt, gen + 1))
+    for s in sums:
+        s["wall_s"] = s.get("wall_s", 0)
 
+    t_explore_end = time.time()
     runs = sum(s["runs"] for s in sums)
     steps = sum(s["steps"] for s in sums)
     sim_ns = sum(s["sim_seconds"] for s in sums) * 1e9
@@ -377,17 +459,35 @@ def explore(binary, prop, tier, seed, budget, workers, max_runs, scratch, spec, 
         print("KNOWN-FINDING: property=%s %s [class=%s signature=%s]" % (prop, k["what"], k["class"], k["signature"]))
     for i, f in enumerate(new_violations):
         v = f["violation"]
+        attempts = spec.get("replay_attempts", 1)
+        if external:
+            # minimise in fresh processes (a failed run of this engine cannot be repeated inside one process)
+            m = shrink_external(binary, prop, tier, f, scratch, "shrink%d" % i, 60 if tier == "quick" else 600)
+            if m is not None:
+                f = dict(f, tape=m["tape"], minimised=True, shrink_runs=m.get("shrink_runs", 0), orig_tape_len=f.get("orig_tape_len", len(f["tape"])))
         # confirm in a fresh process before reporting
-        s = replay_once(binary, prop, tier, f, scratch, "confirm%d" % i)
-        ok = bool(s and not s.get("harness_error") and s["found"] and s["found"][0]["violation"]["class"] == v["class"]
-                  and s["found"][0]["violation"]["signature"] == v["signature"])
+        ok, s, hits = False, None, 0
+        for a in range(attempts):
+            s1 = replay_once(binary, prop, tier, f, scratch, "confirm%d-%d" % (i, a))
+            if bool(s1 and not s1.get("harness_error") and s1["found"] and s1["found"][0]["violation"]["class"] == v["class"]
+                    and s1["found"][0]["violation"]["signature"] == v["signature"]):
+                hits += 1
+                if not ok:
+                    ok, s = True, s1
+                if not external:
+                    break
         if not ok:
-            die("violation %s/%s of run seed %d did not reproduce in a fresh process (replay must be exact in this engine)" % (v["class"], v["signature"], f["run_seed"]))
+            if not external:
+                die("violation %s/%s of run seed %d did not reproduce in a fresh process (replay must be exact in this engine)" % (v["class"], v["signature"], f["run_seed"]))
+            # E2: the observation itself (race report with both stacks / stuck call with the goroutine dump) is the evidence; see DESIGN.md 4.2
+            s = dict(found=[dict(log_hash=f.get("log_hash", ""), log_tail=f.get("log_tail", []))])
+        f["reproduced"] = "%d/%d" % (hits, attempts)
         path = os.path.join(VERIF, "replays", "%s-%d-%s.json" % (prop, f["run_seed"], hashlib.sha1((v["class"] + v["signature"]).encode()).hexdigest()[:6]))
         rec = dict(property=prop, engine=engine, tier=tier, violation=v, run_seed=f["run_seed"], base_seed=seed, run_index=f["run_index"],
                    tape=f["tape"], original_tape_len=f["orig_tape_len"], minimised=f["minimised"], shrink_runs=f["shrink_runs"],
                    knobs=f["knobs"], fault_counts={k2: v2 for k2, v2 in f["counters"].items() if k2.startswith(("fault.", "mut.", "bm."))},
                    log_hash=s["found"][0]["log_hash"], log_tail=s["found"][0]["log_tail"],
+                   replay_attempts=spec.get("replay_attempts", 1), reproduced=f.get("reproduced", ""),
                    replay_cmd="python3 /verif/check.py %s --replay %s" % (prop, path))
         json.dump(rec, open(path, "w"), indent=1)
         replay_paths.append(path)
@@ -396,7 +496,7 @@ def explore(binary, prop, tier, seed, budget, workers, max_runs, scratch, spec, 
         code = 1
 
     wall = time.time() - t_start
-    explore_wall = max(s["wall_s"] for s in sums) if sums else 0.0
+    explore_wall = t_explore_end - t_explore
     faults = {k: v for k, v in sorted(counters.items()) if k.startswith(("fault.", "mut.", "bm."))}
     probes = {k: v for k, v in sorted(counters.items()) if k.startswith("probe.")}
     other = {k: v for k, v in sorted(counters.items()) if not k.startswith(("fault.", "mut.", "bm.", "probe."))}
